@@ -283,6 +283,55 @@ def run(ctx):
                                    "comparator passed to %s uses %s: not a total order (NaN) / may panic" % (c.name.split("::")[-1], badc),
                                    f.where(c.bb))
         ctx.floor("C07.V2 comparator closures" + tag, n2, 3)
+
+        # ---- V3: the float order agrees with float equality.  `==` on values compares floats with IEEE `==`
+        # (-0.0 == 0.0); an order computed from the bit pattern (f64::total_cmp, to_bits) tells them apart, so a
+        # bit-pattern comparison may only be reached when the two floats are not `==`, and the `==` side is Equal.
+        bitcmp = {"core::f64::<impl f64>::total_cmp", "core::f32::<impl f32>::total_cmp"}
+        for f in prog.fns.values():
+            if f.crate == "minijinja" and f.path.startswith("minijinja::value") and \
+                    any(c.name.endswith("::to_bits") for c in f.calls()) and \
+                    f.locals[0].get("adt") == "core::cmp::Ordering":
+                bitcmp.add(f.path)
+        n3 = 0
+        for f in prog.fns.values():
+            if f.crate != "minijinja" or f.path in bitcmp:
+                continue
+            for c in f.calls():
+                if c.name not in bitcmp:
+                    continue
+                n3 += 1
+                guarded = False
+                eq_side_equal = False
+                args_src = [sorted(o.key() for o in flow.origins(f, a)) for a in c.args[:2]]
+                for (sb, taken) in flow.guards(f, c.bb):
+                    cd = flow.cond_of(f, sb)
+                    if cd.kind != "bin" or cd.rv["op"] not in ("Eq", "Ne") or cd.rv.get("ty") not in ("f64", "f32"):
+                        continue
+                    side = flow.bool_true_labels(taken)
+                    if side is None:
+                        continue
+                    is_eq_true = (side != cd.neg) if cd.rv["op"] == "Eq" else (side == cd.neg)
+                    ops_src = [sorted(o.key() for o in flow.origins(f, cd.rv[x])) for x in ("a", "b")]
+                    if not is_eq_true and (ops_src == args_src or ops_src == args_src[::-1]):
+                        guarded = True
+                        eq_edges = cfg.bool_edges(f, sb, (cd.rv["op"] == "Eq") != cd.neg)
+                        blocks = set()
+                        for e in eq_edges:
+                            blocks |= cfg.reach_from(f, e[1], avoid={c.bb})
+                        for bb, i, st in f.all_stmts():
+                            if bb in blocks and st["k"] == "assign" and st["place"] == {"l": 0}:
+                                if st["rv"]["k"] == "use":
+                                    cst = st["rv"]["op"].get("c")
+                                    if cst is not None and ("Equal" in cst.get("d", "") or str(cst.get("int")) == "0"):
+                                        eq_side_equal = True
+                                elif st["rv"]["k"] == "agg" and st["rv"].get("variant") == "Equal":
+                                    eq_side_equal = True
+                ctx.ob("C07.V3.bitwise-float-order-only-for-unequal-floats", tag + f.path, guarded and eq_side_equal,
+                       "%s orders two floats by their bit pattern (%s) without first returning Equal when they are "
+                       "`==`: -0.0 and 0.0 are equal values but would be ordered, so `<`, sort, unique, groupby and "
+                       "map lookup disagree with `==`" % (f.path, c.name.split("::")[-1]), f.where(c.bb))
+        ctx.floor("C07.V3 bit-pattern float comparisons in the value order" + tag, n3, 1)
         if cname == "MAX":
             ctx.sample({"kind table": {k: sorted(v) for k, v in T.kind.items()},
                         "coerce may-Some pairs": sorted("%s,%s" % k for k, v in T.coerce.items() if "Some" in v or "?" in v)[:60],
